@@ -20,6 +20,17 @@ def make_instance(ctx, ci, _name="obj", _interp=None, **given):
         pass
     for k, v in given.items():
         setattr(o, k, v)
+    # fields whose default is computed by a decorated method (`@field.default`): as attrs does, in field order, from the values bound so far
+    have = o.__dict__["_attrs"]
+    for fname, _ann, _value in ci.fields:
+        if fname in have:
+            continue
+        for m in ci.methods.values():
+            if any((d or "").endswith(f"{fname}.default") for d in m.decorator_names()):
+                try:
+                    setattr(o, fname, interp.call(m, (), {}, self_obj=o))
+                except (Raised, Unsupported):
+                    pass
     return o
 
 
@@ -42,7 +53,22 @@ def target_obj(ctx, **kw):
     attrs = copy.deepcopy(cache["v"])
     attrs.update(spec="", options={}, inputs=[], outputs=[], working_dir="/w", protect=set(), group=None)
     attrs.update(kw)
-    return Obj("target", **attrs)
+    o = Obj("target", **attrs)
+    # fields computed from the others by a decorated default method (a cached hash, a derived name): evaluated on the stand-in as attrs would at construction
+    try:
+        ci = ctx.index.cls("gwf.core:Target")
+        derived = [(f_[0], m) for f_ in ci.fields for m in ci.methods.values() if any((d or "").endswith(f"{f_[0]}.default") for d in m.decorator_names())]
+    except Exception:
+        derived = []
+    if derived:
+        interp = PureInterp(ctx, hooks=dict(HASH_HOOKS))
+        for fname, m in derived:
+            if fname not in kw:
+                try:
+                    setattr(o, fname, interp.call(m, (), {}, self_obj=o))
+                except (Raised, Unsupported):
+                    pass
+    return o
 
 
 def ctx_obj(ctx, **kw):
@@ -842,8 +868,8 @@ def eval_spec_store(ctx):
     ci = idx.cls("gwf.core:FileSpecHashes")
     store = make_instance(ctx, ci, "store", path=PROJ + "/.gwf/spec-hashes.json", hashes={})
     interp = PureInterp(ctx, hooks=dict(HASH_HOOKS))
-    T = make_target(ctx, "T", "echo one", {"memory": "4g"})
-    U = make_target(ctx, "U", "echo one", {"memory": "4g"})
+    T = make_target(ctx, "T", "echo one", {"memory": "4g"}, _interp=interp)
+    U = make_target(ctx, "U", "echo one", {"memory": "4g"}, _interp=interp)
     steps = []
 
     def call(meth, target):
@@ -863,8 +889,17 @@ def eval_spec_store(ctx):
     g = call("update", T); step("update(T)", g, g is None, "no error")
     g = call("has_changed", T); step("T right after update(T)", g, g is None, "unchanged (None)")
     g = call("has_changed", U); step("other target U with the same spec, never recorded", g, g is not None and not str(g).startswith("<"), "changed (records are per target name)")
-    T.spec = "echo two"
-    g = call("has_changed", T); step("T after its spec was edited", g, g is not None and not str(g).startswith("<"), "changed (not None)")
+    # the spec is assigned after construction - `gwf.target(...) << "script"` is the usual way to define a target
+    lsh = idx.method(idx.cls("gwf.core:Target"), "__lshift__")
+    try:
+        if lsh is None:
+            raise Unsupported("no __lshift__")
+        interp.call(lsh, ("echo two",), {}, self_obj=T)
+        if T.spec != "echo two":
+            T.spec = "echo two"
+    except (Raised, Unsupported):
+        T.spec = "echo two"
+    g = call("has_changed", T); step("T after its spec was assigned anew with `target << 'echo two'`", g, g is not None and not str(g).startswith("<"), "changed (not None)")
     g = call("update", T); g = call("has_changed", T); step("T after update with the edited spec", g, g is None, "unchanged (None)")
     g = call("invalidate", T); step("invalidate(T)", g, g is None, "no error")
     g = call("has_changed", T); step("T after invalidate(T)", g, g is not None and not str(g).startswith("<"), "changed (record erased)")
@@ -873,12 +908,12 @@ def eval_spec_store(ctx):
     # target.options with the backend defaults before it records: whatever the hash covers must not depend on that)
     sb = idx.func("gwf.scheduling:submit_backend")
     store2 = make_instance(ctx, ci, "store", path=PROJ + "/.gwf/spec-hashes.json", hashes={})
-    S1 = make_target(ctx, "S", "echo s", {"memory": "4g", "walltime": None})
     backend = Obj("backend", target_defaults={"cores": 1, "memory": "1g", "walltime": "01:00:00", "queue": None})
     interp2 = PureInterp(ctx, hooks=dict(HASH_HOOKS, **{"attr:submit": lambda recv, t, dependencies=None, **k: None}))
+    S1 = make_target(ctx, "S", "echo s", {"memory": "4g", "walltime": None}, _interp=interp2)
     try:
         interp2.call(sb, (S1, []), {"backend": backend, "spec_hashes": store2})
-        S2 = make_target(ctx, "S", "echo s", {"memory": "4g", "walltime": None})
+        S2 = make_target(ctx, "S", "echo s", {"memory": "4g", "walltime": None}, _interp=interp2)
         g = interp2.call(idx.method(ci, "has_changed"), (S2,), {}, self_obj=store2)
         step("the unchanged target S in the invocation after its accepted submission", g, g is None,
              "unchanged (None): the hash recorded at submission is the one computed from the workflow file later")
@@ -2498,12 +2533,32 @@ def run_command_witness(ctx):
         hashes = [e[1] for e in ev if e[0] == "hash"]
         rej = [e[1] for e in ev if e[0] == "submit-rejected"]
         what = f"`gwf run` with the scheduler rejecting submission #{k} ({rej[0] if rej else '?'})"
-        if out["raised"] != "BackendError":
+        # the failure is reported: the command ends with one of gwf's own errors (the rejection itself, or a summary raised later), not with success or a crash
+        own_errors = {ci.name for ci in ctx.index.classes.values() if any(b_.rsplit(".", 1)[-1] in ("ClickException", "UsageError", "Exception") for b_ in ctx.index.mro_names(ci)[1:])}
+        if out["raised"] is None:
+            diffs.append(f"{what}: the command ends as if nothing had happened; the failure must be reported (BackendError)")
+        elif out["raised"] not in own_errors | {"ClickException", "Abort", "Exit", "SystemExit"}:
             diffs.append(f"{what}: the command ends with {out['raised']}; the failure must surface as BackendError")
         if sorted(hashes) != sorted(acc):
             diffs.append(f"{what}: accepted {acc}, spec hashes recorded for {hashes}: a hash may be recorded only for an accepted submission, and must be for each")
-        if len(acc) != k - 1:
-            diffs.append(f"{what}: {len(acc)} submissions were accepted before/after the failure, expected {k - 1} (the run stops at the failure)")
+        if len(set(acc)) != len(acc) or (rej and rej[0] in acc):
+            diffs.append(f"{what}: submissions {acc}: a target is submitted twice in one run")
+        # whether the run stops at the rejection or goes on: nothing that needs the rejected target may be handed to the scheduler - the rejected target has no job, so a
+        # dependent would be released at once (or held on whatever old job is still on record under that name) and run on missing or stale input
+        if rej:
+            below = {rej[0]}
+            grew = True
+            while grew:
+                grew = False
+                for t_, ds_ in deps.items():
+                    if t_ not in below and ds_ is not None and below & set(ds_):
+                        below.add(t_)
+                        grew = True
+            i_rej = kinds.index("submit-rejected")
+            late = [e for e in ev[i_rej:] if e[0] == "submit" and e[1] in below]
+            if late:
+                diffs.append(f"{what}: afterwards the run submits {late[0][1]} with prerequisites {late[0][2]} although {rej[0]}, which it needs, has no job: the scheduler releases "
+                             f"{late[0][1]} at once (or holds it on an old, finished job still on record under that name) and it runs on missing or stale input")
         if "close-backend" not in kinds or "close-store" not in kinds:
             diffs.append(f"{what}: a state store is not closed on the failure path: the jobs accepted before the failure are forgotten")
     return n, diffs, None
